@@ -323,6 +323,12 @@ impl GFpEchelonBuilder {
             for j in 1..N {
                 mw += ws[j][i] as u128 * ms[j] as u128;
             }
+            // The sum of N products can exceed p * 2^64 (the domain of mg_redc)
+            // when p > 2^64 / N: bring it back below.
+            let pr = (p as u128) << 64;
+            while mw >= pr {
+                mw -= pr;
+            }
             let mw = mg_redc(self.p, self.pinv, mw);
             if v[i] >= mw {
                 v[i] -= mw;
